@@ -616,10 +616,13 @@ class TermAnalysis(Analysis):
         if eng is not None and eng.try_stack and any(n in ("IndexError", "LookupError") for n in eng.try_stack[-1]):
             need = self._index_need(node, state)
         st = self._stmt(node, st)
+        never = isinstance(node, ast.Expr) and any(kind == "never" for kind, _pc, _exc in self._inl)
         for kind, pc, _exc in self._inl:
             if kind == "normal" and pc:
                 st.pc = st.pc + tuple(pc)
         self._inl = []
+        if never:
+            return None          # an expression statement whose (seen-through) helper never returns: control does not pass it
         if need is not None:
             # it completed: its subscripts existed (the complement of the handler's entry condition)
             st.pc = st.pc + ((("cmp", ">=", ("call", ("ext", "len"), (need[0],), ()), const(need[1])), True),)
@@ -1215,7 +1218,7 @@ class TermAnalysis(Analysis):
                     # n in range(a, b) for an integer n is a <= n < b
                     rng = ("bool", "and", (("cmp", "<=", const(r[1].start), left), ("cmp", "<", left, const(r[1].stop))))
                     parts.append(rng if isinstance(op, ast.In) else ("un", "not", rng))
-                elif isinstance(op, (ast.Is, ast.IsNot)) and r == ("const", None) and left[0] == "ite" and none_test(left) is not None:
+                elif isinstance(op, (ast.Is, ast.IsNot)) and r == ("const", None) and left[0] == "ite" and none_test(left) is not None and none_test(left)[0] != "ite":
                     nt = none_test(left)          # `x is None` for a gated x whose alternatives are None or displays: a question about the gates
                     parts.append(nt if isinstance(op, ast.Is) else (("const", not nt[1]) if is_const(nt) else (nt[2] if nt[:2] == ("un", "not") else ("un", "not", nt))))
                 elif isinstance(op, (ast.Is, ast.IsNot)) and is_const(left) and is_const(r) and (left[1] is None or r[1] is None) \
@@ -1691,6 +1694,7 @@ class TermAnalysis(Analysis):
         for pc, exc, node, rst in sub.raises:
             self._inl.append(("raise", here_pc(pc), exc))
         if not rets:
+            self._inl.append(("never", (), None))
             return ("top", f"{callee.qual} never returns")
         # common prefix of the normal-return path conditions holds after the call
         common = list(rets[0][0])
@@ -1700,7 +1704,7 @@ class TermAnalysis(Analysis):
                 k += 1
             common = common[:k]
         self._inl.append(("normal", tuple(common), None))
-        value = here(sub.return_term()) if len(rets) > 1 else rets[0][1]
+        value = here(sub.return_term(gate_last=bool(sub.raises) and OPTIONS["gate_last"])) if len(rets) > 1 else rets[0][1]
         # a locally built object that the helper returns keeps the attributes the helper stored on it
         self._returned_obj = None
         rnodes = [node for _pc, _tm, node, _r in sub.returns if node is not None]
@@ -2116,12 +2120,16 @@ class Summary:
             raise AnalysisError(f"no term recorded for expression in {self.fn.qual}: {norm(expr_node)[:60]}")
         return self.ta.terms_at[expr_node]
 
-    def return_term(self) -> Term:
-        """Single gated term for the result (ite over the return conditions)."""
+    def return_term(self, gate_last: bool = False) -> Term:
+        """Single gated term for the result (ite over the return conditions).  gate_last: the last alternative is gated by its own
+        condition as well (the rest being `unreachable`): exact when the function has other ways out (raises, exits), so that not taking
+        the earlier returns does not imply taking the last one - and then the facts of the last return are part of the term."""
         rets = [(pc, t) for pc, t, node, _ in self.returns]
         if not rets:
             return ("top", "no return")
         out = rets[-1][1]
+        if gate_last and len(rets) > 1 and rets[-1][0] and not any(pc2 == rets[-1][0] for pc2, _t2 in rets[:-1]):
+            out = ("ite", pc_term(rets[-1][0]), out, ("top", "unreachable: every other way out of the helper raises"))
         for i in range(len(rets) - 2, -1, -1):
             pc, t = rets[i]
             if t == out:
@@ -2136,6 +2144,9 @@ class Summary:
 
 
 _CACHE: Dict[tuple, Summary] = {}
+# gate_last: a seen-through helper that can also raise delivers its last return under that return's own condition (Summary.return_term);
+# switched on by rules that read decisions off the gates of a value (C20), off elsewhere (the extra alternative is noise for the others)
+OPTIONS = {"gate_last": False}
 
 
 def unsupplied_switches(prog: Program, fn: FuncInfo) -> Dict[str, Term]:
@@ -2195,7 +2206,7 @@ def unsupplied_switches(prog: Program, fn: FuncInfo) -> Dict[str, Term]:
 def summarize(prog: Program, fn: FuncInfo, args: Optional[Dict[str, Term]] = None, depth: int = 0) -> Summary:
     if args is None and depth == 0:
         args = unsupplied_switches(prog, fn) or None
-    key = (id(prog), fn.qual, fn.kind, tuple(sorted((args or {}).items())))
+    key = (id(prog), fn.qual, fn.kind, tuple(sorted((args or {}).items())), OPTIONS["gate_last"])
     if key in _CACHE:
         return _CACHE[key]
     ta = TermAnalysis(prog, fn, args)
